@@ -1,7 +1,9 @@
 package rules
 
 import (
+	"go/token"
 	"go/types"
+	"strings"
 
 	"fv/internal/core"
 	"fv/internal/ssax"
@@ -70,7 +72,19 @@ func c11ValidationComplete(ctx *core.Ctx, cc *CC) {
 			}
 			ord++
 			// on every path to a successful return the list load is passed
-			isLoad := func(x ssa.Instruction) bool { return x == ssa.Instruction(ld) }
+			// any read of the same list counts (an emptiness test `if len(x.F) == 0 { return nil }` has looked at it)
+			key := ssax.AddrKey(fa)
+			isLoad := func(x ssa.Instruction) bool {
+				if x == ssa.Instruction(ld) {
+					return true
+				}
+				u, isU := x.(*ssa.UnOp)
+				if !isU {
+					return false
+				}
+				f2, isFA := u.X.(*ssa.FieldAddr)
+				return isFA && ssax.AddrKey(f2) == key
+			}
 			okRet := func(x ssa.Instruction) bool {
 				ret, isRet := x.(*ssa.Return)
 				return isRet && nilErrorReturn(ret)
@@ -183,5 +197,86 @@ func c11ResolvedOnly(ctx *core.Ctx, cc *CC) {
 			ctx.Check(raw == nil, "C11.R14", QName(fn)+" › decides on the resolved type only", cc.FPos(fn), "the raw argument is used for the resolution only",
 				"the unresolved argument is also used at "+cc.IPos(raw)+" (e.g. to pick the declaring file) although the name is taken from the resolved type: for a local alias of a type declared in an include the predicate searches the wrong file and answers false")
 		}
+	}
+}
+
+// c11ParentDirPaths — C11.R16. An output path that steps up a directory is
+// built with filepath.Join, which removes the ".." lexically: the file system
+// is then never asked to walk through a directory that may not exist yet
+// (os.Create("out/lib/../lib.dart") fails on a fresh output tree although
+// "out/lib.dart" can be created). Every use of the path element ".." in the
+// generator packages ends in filepath.Join / path.Join / filepath.Clean.
+func c11ParentDirPaths(ctx *core.Ctx, cc *CC) {
+	ctx.Rule("C11.R16", "output paths that step up a directory are cleaned lexically: the path element \"..\" only ever reaches filepath.Join/Clean", 1)
+	n := 0
+	for _, fn := range cc.Fns {
+		if fn.Pkg == nil || !strings.Contains(fn.Pkg.Pkg.Path(), "/compiler/generator") {
+			continue
+		}
+		ssax.Instrs(fn, func(in ssa.Instruction) {
+			for _, op := range in.Operands(nil) {
+				k, ok := (*op).(*ssa.Const)
+				if !ok {
+					continue
+				}
+				if s, isS := ConstString(k); !isS || s != ".." {
+					continue
+				}
+				n++
+				// where does it end up?
+				bad := ""
+				seen := map[ssa.Instruction]bool{}
+				var follow func(user ssa.Instruction, depth int)
+				follow = func(user ssa.Instruction, depth int) {
+					if seen[user] || depth > 6 {
+						return
+					}
+					seen[user] = true
+					switch x := user.(type) {
+					case *ssa.Phi, *ssa.MakeInterface, *ssa.ChangeType:
+						if refs := x.(ssa.Value).Referrers(); refs != nil {
+							for _, u := range *refs {
+								follow(u, depth+1)
+							}
+						}
+					case *ssa.Store:
+						// element of a variadic argument list
+						if ia, isIA := x.Addr.(*ssa.IndexAddr); isIA {
+							if al, isAl := ia.X.(*ssa.Alloc); isAl && al.Referrers() != nil {
+								for _, u := range *al.Referrers() {
+									if sl, isSl := u.(*ssa.Slice); isSl && sl.Referrers() != nil {
+										for _, u2 := range *sl.Referrers() {
+											follow(u2, depth+1)
+										}
+									}
+								}
+								return
+							}
+						}
+						bad = "stored at " + cc.IPos(user)
+					case ssa.CallInstruction:
+						c, _ := ssax.AsCall(user)
+						switch c.FullName() {
+						case "path/filepath.Join", "path.Join", "path/filepath.Clean", "path.Clean":
+						default:
+							bad = "handed to " + c.FullName() + " at " + cc.IPos(user)
+						}
+					case *ssa.BinOp:
+						if x.Op == token.EQL || x.Op == token.NEQ {
+							return // a comparison
+						}
+						bad = "concatenated at " + cc.IPos(user)
+					default:
+						bad = "used at " + cc.IPos(user)
+					}
+				}
+				follow(in, 0)
+				ctx.Check(bad == "", "C11.R16", QName(fn)+sprintf(" › parent-directory element #%d reaches filepath.Join only", n), cc.IPos(in), "argument of filepath.Join",
+					"the path element \"..\" is "+bad+" instead of filepath.Join: the resulting path still contains the directory it steps out of, so creating the file fails with 'no such file or directory' when that directory has not been created yet (first generation into a fresh output tree)")
+			}
+		})
+	}
+	if n == 0 {
+		ctx.Discharge("C11.R16", "generators › no parent-directory path element", "", "no \"..\" constant in the generator packages")
 	}
 }
